@@ -160,7 +160,10 @@ class IDStat:
         The `name` attribute of the returned series is set using the `name` property.
 
         """
-        return pd.Series(self.asdict(), name=self.name)
+        val = self.asdict()
+        # tupleize_cols=False: tuple IDs stay IDs instead of becoming a MultiIndex
+        index = pd.Index(list(val), tupleize_cols=False)
+        return pd.Series(list(val.values()), index=index, name=self.name)
 
     def ashist(self, bins=10, bin_edges=False, density=False, log_binning=False):
         """Return the distribution of a numpy array.
@@ -531,8 +534,7 @@ class MultiIDStat(IDStat):
         5       2    1.000000
 
         """
-        result = {s.name: s.asdict() for s in self.stats}
-        series = [pd.Series(v, name=k) for k, v in result.items()]
+        series = [s.aspandas() for s in self.stats]
         return pd.concat(series, axis=1)
 
     def ashist(self, bins=10, bin_edges=False, density=False, log_binning=False):
